@@ -308,6 +308,12 @@ func vC14Configs(tier string) []vVecCfg {
 			out = append(out, vVecCfg{Kind: "ivfpq", Metric: metric, Dim: 2, NList: 2, M: 1, NBits: nb, Train: -3})
 		}
 	}
+	// data with one exactly constant subspace (Euclidean family: cosine normalises it away)
+	for _, metric := range []DistanceKind{Euclidean, L2Squared} {
+		out = append(out, vVecCfg{Kind: "ivfpq", Metric: metric, Dim: 4, NList: 2, M: 2, NBits: 2, Train: -4})
+		out = append(out, vVecCfg{Kind: "pq", Metric: metric, Dim: 4, M: 2, NBits: 2, Train: -4})
+	}
+	out = append(out, vVecCfg{Kind: "ivfpq", Metric: Euclidean, Dim: 6, NList: 2, M: 3, NBits: 1, Train: -4})
 	// wide subspaces (dim/M = 8, 10, 16, 24): per-subspace loops longer than any unrolling width
 	for _, metric := range metrics {
 		out = append(out, vVecCfg{Kind: "pq", Metric: metric, Dim: 8, M: 1, NBits: 2, Train: -2})
@@ -361,6 +367,17 @@ func vC14Sys(c *vCtx, cfg vVecCfg) *vKindSys {
 		for _, v := range s.train {
 			for j := range v {
 				v[j] += 1000
+			}
+		}
+	}
+	if cfg.Train == -4 {
+		// every training vector carries the same sub-vector in the whole LAST subspace (a bias
+		// feature, a constant tag embedding): that subspace's residuals are exactly constant,
+		// its codebook degenerates to one point, the list centroids are non-zero there
+		dsub := cfg.Dim / cfg.M
+		for _, v := range s.train {
+			for j := cfg.Dim - dsub; j < cfg.Dim; j++ {
+				v[j] = []float32{0.75, -0.5}[(j-(cfg.Dim-dsub))%2]
 			}
 		}
 	}
